@@ -150,6 +150,7 @@ func scenHist(c *hx.Ctx, in Input) {
 		}
 	}
 	nonzero := map[uint32]bool{}
+	savedBloom := map[uint32]ethtypes.Bloom{}
 	var heights []uint32
 	panicked := false
 	save := func(h uint32, b ethtypes.Bloom) bool {
@@ -180,6 +181,7 @@ loop:
 				break loop
 			}
 			nonzero[o.h] = true
+			savedBloom[o.h] = o.bloom
 			heights = append(heights, o.h)
 			nSave++
 		case opRun:
@@ -230,6 +232,20 @@ loop:
 	for i := 0; i < 8 && len(heights) > 0; i++ {
 		h := heights[r.Intn(len(heights))] + uint32(r.Intn(3)) - 1
 		cs = append(cs, fmt.Sprintf("(%d, %s)", h, hx.CoqBool(isCached[h])))
+	}
+	// direct oracle: a bloom saved at or above the EVM fork height is what GetBloomData returns
+	for h, want := range savedBloom {
+		if h < adh {
+			continue
+		}
+		got, err := bs.GetBloomData(h)
+		if err != nil {
+			panic(err)
+		}
+		if got != want {
+			c.Fail("bloom:stored-differs", "GetBloomData does not return the bloom saved for a block at or above the EVM fork height", in,
+				fmt.Sprintf("height %d: %x", h, sparseBytes(got[:])), fmt.Sprintf("%x", sparseBytes(want[:])))
+		}
 	}
 	// blooms
 	var probe []uint32
@@ -292,12 +308,10 @@ loop:
 			}
 			return b
 		}, func(i uint) ([]byte, error) { return ledgerstore.ReadBloomBits(db, i, s) })
-		if raw == nil {
-			return
-		}
 		c.Count("hist:section-checked")
 		for _, i := range pickBits(r, set, 10, 4) {
-			bits = append(bits, fmt.Sprintf("(%d, %d, %s)", i, s, coqOptBytes(raw[i], true)))
+			v, ok := raw[i]
+			bits = append(bits, fmt.Sprintf("(%d, %d, %s)", i, s, coqOptBytes(v, ok)))
 		}
 	}
 	c.Nontrivial(fmt.Sprintf("%s:%d", in.Kind, in.Seed))
